@@ -21,6 +21,10 @@ var (
 	count    int
 	crashAt  = -1
 	trace    = os.Getenv("VERIF_CRASH_TRACE") != ""
+	// with VERIF_CRASH_ARM=<name> the points are counted from the first point of that name (which
+	// is point 1), so that VERIF_CRASH_AT addresses the writes of one particular commit
+	arm   = os.Getenv("VERIF_CRASH_ARM")
+	armed = arm == ""
 )
 
 func init() {
@@ -48,6 +52,21 @@ func Count() int {
 // Point marks a place where the verification harness may interrupt execution.
 func Point(name string) {
 	mtx.Lock()
+	if !armed && name == arm {
+		armed = true
+		count = 0
+	}
+	if !armed {
+		f := callback
+		mtx.Unlock()
+		if trace {
+			fmt.Fprintf(os.Stderr, "VERIF_POINT - %s\n", name)
+		}
+		if f != nil {
+			f(name)
+		}
+		return
+	}
 	count++
 	c := count
 	f := callback
